@@ -1,4 +1,4 @@
-import GixModel.Lemmas.C20Read
+import GixModel.Lemmas.C20Left
 /-
 C20 — Reference updates are crash-consistent.  PROPERTY THEOREMS ONLY.
 
@@ -131,6 +131,134 @@ theorem prepSteps_prefix (c : Cfg) (s : Store) (txn : List Edit) : prepSteps c s
   simp only [prepSteps, txnSteps, List.append_assoc]
   exact (List.prefix_append_right_inj _).mpr (List.prefix_append _ _)
 
+/-- `leftovers_are_locks` — clause (4) at the strength the harness checks on the real code: after a
+crash at any point, every file that is neither a file of the initial state nor a file of the state
+the complete transaction produces is a lock file. -/
+theorem leftovers_are_locks (c : Cfg) (s : Store) (txn : List Edit) (h : TxnOk c s txn) (k : Nat) (p : Path)
+    (hp : (fileAt (applyAll ((txnSteps c s txn).take k) s.toFs) p).isSome = true) :
+    (fileAt s.toFs p).isSome = true ∨ (fileAt (applyAll (txnSteps c s txn) s.toFs) p).isSome = true ∨
+      isLockPath p = true := by
+  have hsplit : applyAll (txnSteps c s txn) s.toFs =
+      applyAll ((txnSteps c s txn).drop k) (applyAll ((txnSteps c s txn).take k) s.toFs) := by
+    rw [← applyAll_append, List.take_append_drop]
+  by_cases h0 : (fileAt s.toFs p).isSome = true
+  · exact .inl h0
+  · right
+    -- the file was created by an operation of the prefix
+    have hcr := files_grow (fun q => ∃ op ∈ txnSteps c s txn, q ∈ op.creates) ((txnSteps c s txn).take k)
+      (fun op ho q hq => ⟨op, List.mem_of_mem_take ho, hq⟩) s.toFs p hp
+    rcases hcr with hcr | ⟨op, ho, hq⟩
+    · exact absurd hcr h0
+    · have hsub : p ∈ op.touches := by cases op <;> simp_all [FsOp.creates, FsOp.touches]
+      rcases mem_steps_cases c s txn h.names_ref ho with h1 | h1 | h1
+      · cases op <;> simp_all [FsOp.creates, FsOp.isDirOp]
+      · -- a reflog: created for an updated ref, and it stays
+        have hd : op.isDirOp = false := by cases op <;> simp_all [FsOp.creates, FsOp.isDirOp]
+        rcases steps_logOps c s txn h.names_ref ho h1 hd with ⟨n, new, hu, rfl | ⟨bs, rfl⟩⟩ | ⟨n, _, rfl⟩
+        · simp [FsOp.creates] at hq; subst hq
+          left
+          rw [hsplit]
+          exact fileAt_persist _ _ _
+            (fun o ho' => update_log_stays c s txn h hu o (List.mem_of_mem_drop ho')) hp
+        · simp [FsOp.creates] at hq
+        · simp [FsOp.creates] at hq
+      · rcases mem_core_cases c s txn h1 with rfl | hmm | ⟨e, he, hmm⟩
+        · simp [FsOp.creates] at hq; subst hq; exact .inr (isLockPath_lockPath _)
+        · -- packed-refs: only ever replaced, so it was there initially
+          rcases packedCommit_touches c s txn op hmm p hsub with rfl | rfl
+          · exfalso
+            rcases packed_old_or_new c s txn h k with hh | hh
+            · rw [hh, ← init_packed h.loose_ref] at hp; exact h0 hp
+            · -- the new file exists only if the old one did
+              have : s.packed.isSome = true := by
+                simp only [packedCommit] at hmm
+                split at hmm
+                · cases hmm
+                · rename_i hg
+                  simp only [Bool.not_eq_true, Bool.not_eq_false'] at hg
+                  simp only [Store.hasGlobalLock, Bool.and_eq_true] at hg
+                  exact hg.1
+              rw [init_packed h.loose_ref] at h0
+              cases hs : s.packed with
+              | none => rw [hs] at this; cases this
+              | some rs => simp [hs] at h0
+          · exact .inr (isLockPath_lockPath _)
+        · rcases edit_core_touches c s _ e op hmm p hsub with rfl | rfl
+          · -- an updated ref: it has its final value at the end
+            left
+            have hfin := (full_run c s txn h e he).1
+            cases e with
+            | update n new => rw [hfin]; rfl
+            | delete n =>
+              exfalso
+              simp only [List.mem_append, prepCoreEdit, renameCore, delCore, List.not_mem_nil, or_false] at hmm
+              rcases hmm with hmm | hmm | hmm
+              · split at hmm
+                · cases hmm
+                · simp at hmm; subst hmm; simp [FsOp.creates, Edit.name] at hq
+                  exact lock_ne_self n hq.symm
+              · split at hmm
+                · simp at hmm; subst hmm; simp [FsOp.creates] at hq
+                · cases hmm
+              · split at hmm
+                · cases hmm
+                · simp at hmm; subst hmm; simp [FsOp.creates] at hq
+          · exact .inr (isLockPath_lockPath _)
+
+/-! ### hypotheses on the input only -/
+
+/-- what is assumed of the transaction and the store, in terms of the INPUT alone: distinct ref
+names below `refs/` not ending in `.lock`; no edited ref (or lock) is a directory on the path to
+another edited ref (`NoDF`: the edits are free of directory/file conflicts); the store holds no
+stale lock and no directory where an edited ref goes; `chunk` only splits. -/
+structure TxnInput (c : Cfg) (s : Store) (txn : List Edit) : Prop where
+  names_nodup : (names txn).Nodup
+  names_ref : ∀ e ∈ txn, isRefName e.name = true
+  no_df : NoDF txn
+  loose_ref : ∀ x ∈ s.loose, isRefName x.1 = true
+  chunk_ok : ∀ bs, (c.chunk bs).flatten = bs
+  no_locks : ∀ e ∈ txn, s.toFs (lockPath e.name) = none
+  no_packed_lock : s.toFs (lockPath packedPath) = none
+  not_dir : ∀ e ∈ txn, s.toFs e.name ≠ some .dir
+
+/-- the condition on the generated step list (`TxnOk.no_dir_clash`) is derived, not assumed -/
+theorem txnOk_of_input {c : Cfg} {s : Store} {txn : List Edit} (h : TxnInput c s txn) : TxnOk c s txn where
+  names_nodup := h.names_nodup
+  names_ref := h.names_ref
+  loose_ref := h.loose_ref
+  chunk_ok := h.chunk_ok
+  no_locks := h.no_locks
+  no_packed_lock := h.no_packed_lock
+  not_dir := h.not_dir
+  no_dir_clash := no_dir_clash_of_noDF c s txn h.names_ref h.no_df
+
+/-- `crash_consistent` with input-side hypotheses only -/
+theorem crash_consistent_input (cd : Codec) (c : Cfg) (s : Store) (txn : List Edit) (h : TxnInput c s txn)
+    (k : Nat) :
+    (∀ e ∈ txn,
+        readRef cd (applyAll ((txnSteps c s txn).take k) s.toFs) e.name = readRef cd s.toFs e.name ∨
+        readRef cd (applyAll ((txnSteps c s txn).take k) s.toFs) e.name = e.intended) ∧
+    (∀ m, isRefName m = true → m ∉ names txn →
+        readRef cd (applyAll ((txnSteps c s txn).take k) s.toFs) m = readRef cd s.toFs m) ∧
+    ((fileAt (applyAll ((txnSteps c s txn).take k) s.toFs) packedPath = fileAt s.toFs packedPath ∨
+        fileAt (applyAll ((txnSteps c s txn).take k) s.toFs) packedPath = newPackedFile s txn) ∧
+      ∀ bytes, fileAt (applyAll ((txnSteps c s txn).take k) s.toFs) packedPath = some bytes →
+        (cd.parsePacked bytes).isSome = true) ∧
+    (∀ p, (fileAt (applyAll ((txnSteps c s txn).take k) s.toFs) p).isSome = true →
+        (fileAt s.toFs p).isSome = true ∨ Produced txn p) :=
+  crash_consistent cd c s txn (txnOk_of_input h) k
+
+theorem commit_complete_input (cd : Codec) (c : Cfg) (s : Store) (txn : List Edit) (h : TxnInput c s txn) :
+    (∀ e ∈ txn, readRef cd (applyAll (txnSteps c s txn) s.toFs) e.name = e.intended) ∧
+      (txn ≠ [] → fileAt (applyAll (txnSteps c s txn) s.toFs) packedPath = newPackedFile s txn) :=
+  commit_complete cd c s txn (txnOk_of_input h)
+
+theorem leftovers_are_locks_input (c : Cfg) (s : Store) (txn : List Edit) (h : TxnInput c s txn) (k : Nat)
+    (p : Path) (hp : (fileAt (applyAll ((txnSteps c s txn).take k) s.toFs) p).isSome = true) :
+    (fileAt s.toFs p).isSome = true ∨ (fileAt (applyAll (txnSteps c s txn) s.toFs) p).isSome = true ∨
+      isLockPath p = true :=
+  leftovers_are_locks c s txn (txnOk_of_input h) k p hp
+
 /-! ### non-vacuity -/
 
 /-- refs/heads/a (loose, also packed with a stale value), refs/tags/t (packed only) -/
@@ -157,6 +285,19 @@ example : TxnOk exCfg exStore exTxn where
   no_packed_lock := by decide
   not_dir := by decide
   no_dir_clash := by decide
+
+example : TxnInput exCfg exStore exTxn where
+  names_nodup := by decide
+  names_ref := by decide
+  no_df := by
+    intro e he e' he'
+    simp [exTxn] at he he'
+    rcases he with rfl | rfl <;> rcases he' with rfl | rfl <;> decide
+  loose_ref := by decide
+  chunk_ok := by intro bs; induction bs <;> simp_all [exCfg]
+  no_locks := by decide
+  no_packed_lock := by decide
+  not_dir := by decide
 
 
 end GixModel.Props.C20
